@@ -338,7 +338,19 @@ func (x *Exec) checkEvents(ctx string) {
 	}
 	for k, v := range bal {
 		if v == 1 && !want[k] {
-			x.fail([]string{"C15"}, "lifecycle-deleted-missing", "%s: %s was created and is gone in the model, but no deleted callback was delivered (event log: %s)", ctx, k, eventTail(evs))
+			props := []string{"C15"}
+			if strings.HasPrefix(k, "chan|") || strings.HasPrefix(k, "perm|") {
+				// a permission or channel that outlives its removal - or its whole allocation (C06:
+				// "all its permissions and channels are gone with it")
+				owner := false
+				for _, a := range x.m.Allocs {
+					owner = owner || strings.Contains(k, "|"+x.w.clients[a.Client].Addr.String()+"|"+a.Relay.String()+"|")
+				}
+				if !owner {
+					props = append(props, "C06")
+				}
+			}
+			x.fail(props, "lifecycle-deleted-missing", "%s: %s was created and is gone in the model, but no deleted callback was delivered (event log: %s)", ctx, k, eventTail(evs))
 
 			return
 		}
